@@ -24,7 +24,7 @@ open("/var/tmp/chk_gen.v", "w").write(chk)
 out = subprocess.run(["coqc", "-Q", ".", "Hy", "/var/tmp/chk_gen.v"], capture_output=True, text=True, cwd="/verif/coq")
 if out.returncode:
     sys.exit(out.stdout + out.stderr)
-blocks = re.split(r"\n(?=@?[A-Za-z0-9_]+\.[A-Za-z0-9_']+\n\s+:)", "\n" + out.stdout)
+blocks = re.split(r"\n(?=@?[A-Za-z0-9_.']+\n\s+:)", "\n" + out.stdout)
 res = {}
 for b in blocks:
     b = b.strip("\n")
